@@ -69,18 +69,38 @@ func c05Check(cc CfgCase, rec *Recorder) *Disc {
 	// one Config value (one set of backing arrays) is handed to all three calls, as a caller who keeps
 	// its Config around would do: what is wrong with it is the same every time
 	shared := c.Cors()
-	for pass := 0; pass < 3; pass++ {
+	// the same configuration with every EMPTY list spelled as an empty non-nil slice (what decoding `[]` from JSON, or
+	// re-slicing, yields): nothing in the documentation tells nil and empty apart
+	emptied := c.Cors()
+	for _, l := range []*[]string{&emptied.Origins, &emptied.Methods, &emptied.RequestHeaders, &emptied.ResponseHeaders} {
+		if len(*l) == 0 {
+			*l = make([]string, 0, 2)
+		}
+	}
+	for pass := 0; pass < 6; pass++ {
 		var (
 			m   *cors.Middleware
 			err error
 		)
-		if pass != 1 {
+		switch pass {
+		case 0, 2:
 			m, err = cors.NewMiddleware(shared)
-		} else {
+		case 1:
 			m = new(cors.Middleware)
 			err = m.Reconfigure(&shared)
+		case 3:
+			// a middleware that is configured already (debug on): same report, whatever state the call starts from
+			m, _ = cors.NewMiddleware(cors.Config{Origins: []string{"https://live.example"}, RequestHeaders: []string{"X-Live"}})
+			m.SetDebug(true)
+			err = m.Reconfigure(&shared)
+		case 4:
+			m, err = cors.NewMiddleware(emptied)
+		case 5:
+			m = new(cors.Middleware)
+			err = m.Reconfigure(&emptied)
 		}
-		entry := []string{"NewMiddleware", "Reconfigure (same Config value again)", "NewMiddleware (same Config value a third time)"}[pass]
+		entry := []string{"NewMiddleware", "Reconfigure (same Config value again)", "NewMiddleware (same Config value a third time)", "Reconfigure on a configured middleware in debug mode",
+			"NewMiddleware (empty lists as empty non-nil slices)", "Reconfigure (empty lists as empty non-nil slices)"}[pass]
 		if len(exp) == 0 {
 			if err != nil {
 				return discf("%s rejects a configuration assembled only from documented-permitted settings: %+v: %v", entry, c, err)
@@ -93,7 +113,7 @@ func c05Check(cc CfgCase, rec *Recorder) *Disc {
 		if err == nil {
 			return discf("%s accepts %+v although it contains violations %v", entry, c, exp)
 		}
-		if pass != 1 && m != nil {
+		if (pass == 0 || pass == 2 || pass == 4) && m != nil {
 			return discf("NewMiddleware returned a non-nil middleware together with error: %+v", c)
 		}
 		obs, bad := ObservedErrors(err)
@@ -188,7 +208,7 @@ func bucket(n int) string {
 func TestC05(t *testing.T) {
 	Prop[CfgCase]{ID: "C05", Gen: c05Gen, Check: c05Check,
 		Rule: "generator: configurations built only from labelled atoms (origin patterns: valid / insecure / public-suffix wildcard / 70 strings each with one documented defect; methods, request- and response-header names: valid / forbidden / prohibited / invalid in several letter cases; integers at and around each bound; all switch combinations), " +
-			"three balanced classes: all valid, exactly one planted violation, many simultaneous violations in any position and multiplicity. Oracle: multiset of documented typed errors (type, Value as supplied, Type, Reason, bounds) == cfgerrors.All sequence, for NewMiddleware, for Reconfigure on a zero value and for NewMiddleware again, all three given the SAME Config value (same backing arrays); the errors are inspected again, and must be unchanged, after a shifted copy of the configuration (every out-of-bounds integer moved, lists reversed) and a configuration violating every rule have been validated. " +
+			"three balanced classes: all valid, exactly one planted violation, many simultaneous violations in any position and multiplicity. Oracle: multiset of documented typed errors (type, Value as supplied, Type, Reason, bounds) == cfgerrors.All sequence, for NewMiddleware, for Reconfigure on a zero value, for NewMiddleware again and for Reconfigure on a configured middleware in debug mode, all given the SAME Config value (same backing arrays), then for NewMiddleware and Reconfigure given the configuration with its empty lists spelled as empty non-nil slices; the errors are inspected again, and must be unchanged, after a shifted copy of the configuration (every out-of-bounds integer moved, lists reversed) and a configuration violating every rule have been validated. " +
 			"non-trivial = >=2 simultaneous violations in >=2 different fields, or an all-valid configuration using >=3 optional features; distinct by configuration.",
 		Assumptions: []string{"atom labels are taken from the Config/ExtraConfig/cfgerrors documentation and the Fetch forbidden-name lists",
 			"for malformed origin patterns the documentation does not say which of invalid/prohibited applies, so either is accepted (except null and file:, documented as prohibited)"}}.Run(t)
